@@ -643,11 +643,20 @@ def _r20f(rep):
     x = f"self._equiv_volumes[{j}]"
     t = f"self._temperatures[{j}]"
     fitT = f"np.polyfit(self._temperatures[{j}-1:{j}+2], self._equiv_volumes[{j}-1:{j}+2], 2)"
-    _site(rep, "R20f", "QHA._set_heat_capacity_P_polyfit", pf, "Cp_j = Cv(V_j) + T_j * dV/dT * dS/dV (degree-4 fits in V, quadratic in T)", got,
-          f"np.dot(np.polyfit(self._volumes, self._cv[{j}], 4), np.array([{x}**4, {x}**3, {x}**2, {x}, 1]))"
-          f" + {t} * ({fitT}[0] * 2 * {t} + {fitT}[1])"
-          f" * np.dot(np.polyfit(self._volumes, self._entropy[{j}], 4)[:4], np.array([4*{x}**3, 3*{x}**2, 2*{x}, 1]))",
-          "polynomial evaluation / derivative vectors do not match np.polyfit's highest-power-first coefficients")
+    n_tfit = sum(1 for c in ast.walk(pf) if isinstance(c, ast.Call) and core.src(c.func) == "np.polyfit" and "temperatures" in core.src(c))
+    qcls = core.parse(QHA)
+    grad_attrs = {core.src(t) for st_ in ast.walk(qcls) if isinstance(st_, ast.Assign) and isinstance(st_.value, ast.Call) and core.src(st_.value.func) == "np.gradient" and len(st_.value.args) == 2 and "equiv_volumes" in core.src(st_.value.args[0]) and "temperatures" in core.src(st_.value.args[1]) for t in st_.targets}
+    uses_grad = any(core.src(x) in grad_attrs for x in ast.walk(pf) if isinstance(x, (ast.Attribute, ast.Name))) or any(isinstance(c, ast.Call) and core.src(c.func) == "np.gradient" and len(c.args) == 2 and "equiv_volumes" in core.src(c.args[0]) and "temperatures" in core.src(c.args[1]) for c in ast.walk(pf))
+    if n_tfit == 0 and uses_grad:
+        # dV/dT taken another way (np.gradient's interior formula is the derivative of the same three-point parabola):
+        # the documented form cannot be compared term by term; what the derivative is, is not decided here
+        rep.unknown("R20f: _set_heat_capacity_P_polyfit takes dV/dT from np.gradient(V_eq, T) (interior formula = derivative of the same three-point parabola) instead of np.polyfit; the Cp assembly is not compared term by term")
+    else:
+        _site(rep, "R20f", "QHA._set_heat_capacity_P_polyfit", pf, "Cp_j = Cv(V_j) + T_j * dV/dT * dS/dV (degree-4 fits in V, quadratic in T)", got,
+              f"np.dot(np.polyfit(self._volumes, self._cv[{j}], 4), np.array([{x}**4, {x}**3, {x}**2, {x}, 1]))"
+              f" + {t} * ({fitT}[0] * 2 * {t} + {fitT}[1])"
+              f" * np.dot(np.polyfit(self._volumes, self._entropy[{j}], 4)[:4], np.array([4*{x}**3, 3*{x}**2, 2*{x}, 1]))",
+              "polynomial evaluation / derivative vectors do not match np.polyfit's highest-power-first coefficients")
     a = sp.symbols("a0:5")
     xs = sp.Symbol("x")
     poly = sum(a[k] * xs ** (4 - k) for k in range(5))
